@@ -88,7 +88,10 @@ OUTLIERS = [None, None, (10, 5), (30, 5), (10, 100), (30, 100), (100, 100), (0, 
 
 class SysGen:
     """random histories; one PRNG; names drawn from small pools so that unsolicited names occur"""
-    HOSTS = ["svc-a:80", "svc-b", "svc-c.default:8888", "SVC-A:80", "unknown-host:80"]
+    # the same service under several spellings and with several ports, with and without a port
+    HOSTS = ["svc-a:80", "svc-b", "svc-c.default:8888", "SVC-A:80", "unknown-host:80", "svc-a:8888", "svc-b:80", "svc-b:8888"]
+    LOOKUP_TYPES = ["lds", "rds", "cds", "eds"]
+    RESP_BIAS = []      # extra weight for some types of responses
     FQDN = {"svc-a": "svc-a.default.svc.cluster.local", "svc-b": "svc-b.default.svc.cluster.local",
             "svc-c.default": "svc-c.default.svc.cluster.local"}
     PLAIN_LIS = ["l1", "l2", "l3", "virtualInbound"]
@@ -159,22 +162,41 @@ class SysGen:
             names = [n for n in pool if r.random() < 0.5]
         if r.random() < 0.15 and names:
             names.append(r.choice(names))                      # duplicate name: later wins
+        prev_args = getattr(self, "_prev_args", None)
+        if prev_args is None:
+            prev_args = self._prev_args = {}
         for n in names:
             st = self.next_stamp()
+            if rt == "lds" and n == "virtualInbound":
+                res = listener(n, st, chains=inbound_chains(r))
+                self.stamp += 4
+                op["resources"].append(C("RGood", res))
+                continue
             if rt == "lds":
-                if n == "virtualInbound":
-                    res = listener(n, st, chains=inbound_chains(r))
-                    self.stamp += 4
-                else:
-                    res = listener(n, st, port=r.choice([None, 80, 8888]), tokens=r.choice([None, 0, 7, 100]), inline=r.random() < 0.2)
+                a = dict(port=r.choice([None, 80, 8888]), tokens=r.choice([None, 0, 7, 100]), inline=r.random() < 0.2)
             elif rt == "rds":
-                res = route_config(n, st, clusters=["cl-%d" % st] + (["cl-shared"] if r.random() < 0.3 else []),
-                                   retry=None if r.random() < 0.4 else retry_policy(r))
+                a = dict(clusters=["cl-%d" % st] + (["cl-shared"] if r.random() < 0.3 else []), retry=None if r.random() < 0.4 else retry_policy(r))
             elif rt == "cds":
-                res = cluster(n, st, eds=r.random() < 0.7, outlier=r.choice(OUTLIERS),
-                              inline=None if r.random() < 0.75 else endpoints(n, st, nloc=r.choice([0, 1, 2]), nep=r.choice([0, 1, 2])))
+                a = dict(eds=r.random() < 0.7, outlier=r.choice(OUTLIERS), inl=None if r.random() < 0.75 else (r.choice([0, 1, 2]), r.choice([0, 1, 2])))
             else:
-                res = endpoints(n, st, nloc=r.choice([0, 1, 1, 2]), nep=r.choice([0, 1, 2]))
+                a = dict(nloc=r.choice([0, 1, 1, 2]), nep=r.choice([0, 1, 2]))
+            # a resource pushed again exactly as before except for ONE policy field (the retry policy of a route table,
+            # the outlier detection of a cluster, the token count of a listener, the endpoint count of a load assignment)
+            pv = prev_args.get((rt, n))
+            if pv is not None and r.random() < 0.25:
+                st, old = pv
+                field = {"lds": "tokens", "rds": "retry", "cds": "outlier", "eds": "nep"}[rt]
+                a = dict(old, **{field: a[field]})
+            prev_args[(rt, n)] = (st, a)
+            if rt == "lds":
+                res = listener(n, st, port=a["port"], tokens=a["tokens"], inline=a["inline"])
+            elif rt == "rds":
+                res = route_config(n, st, clusters=a["clusters"], retry=a["retry"])
+            elif rt == "cds":
+                res = cluster(n, st, eds=a["eds"], outlier=a["outlier"],
+                              inline=None if a["inl"] is None else endpoints(n, st, nloc=a["inl"][0], nep=a["inl"][1]))
+            else:
+                res = endpoints(n, st, nloc=a["nloc"], nep=a["nep"])
             op["resources"].append(C("RGood", res))
         # the exact bytes of a resource the previous response of this type carried, under another kind's type url
         prev_good = getattr(self, "_prev_good", None)
@@ -237,11 +259,11 @@ class SysGen:
                 held_rt = r.choice(types)
                 continue
             if k < 0.4:
-                rt = r.choice(["lds", "rds", "cds", "eds"])
+                rt = r.choice(self.LOOKUP_TYPES)
                 pool = self.lis_names(istio) if rt == "lds" else self.NAMES[rt]
                 case["ops"].append({"op": "lookup", "rt": rt, "name": r.choice(pool)})
             elif k < 0.88:
-                rt = r.choice(types)
+                rt = r.choice(types + [t for t in self.RESP_BIAS if t in types])
                 op, tbl = self.resp(rt, istio, tbl)
                 case["ops"].append(op)
             elif k < 0.9:
